@@ -97,7 +97,10 @@ def h15(b0: bool, b1: bool, b2: bool, b3: bool, b4: bool, b5: bool) -> bool:
         #    be incompleteness, which the statement does not forbid - nothing to check
         return fin(True, nontrivial=not feasible)
     # 2. accepted: the solution satisfies every bound
-    if not feasible and lows and "any" not in args:
+    feat_constr_upper_only = tvspec[0] == "constr" and not lows and bool(ups)
+    if excluded(feat_constr_upper_only=feat_constr_upper_only, accepted_infeasible=not feasible):
+        return skip()
+    if not feasible and (lows or tvspec[0] == "constr") and "any" not in args:
         return fin(False)  # accepted although no value satisfies the bounds
     S = ret
     if isinstance(S, AnyValue):
@@ -176,11 +179,13 @@ def cases(tier: str, seed: int) -> List[Case]:
     idx = 0
     for n in (1, 2, 3):
         for kinds in itertools.product(KINDS, repeat=n):
-            if all(k[0] == "cbT" for k in kinds):
-                continue  # no lower bound at all: the solution is the upper bound, covered by n=2 mixes
+            if all(k[0] == "cbT" for k in kinds) and n == 3:
+                continue  # (callbacks only: kept for 1 and 2 parameters - the solution is then an upper bound)
             for tv in (TVS[:2] + TVS[3:4] if quick else TVS):
                 if quick:
                     patterns = [[i % 3 for i in range(n)], [0] * n]
+                    if n <= 2:
+                        patterns.append([(i + 2) % 3 for i in range(n)])  # starts at atom 2: outside constraints (0, 1)
                 else:
                     patterns = [list(p) for p in itertools.product(range(3), repeat=n)]
                 # one Any argument in a T position
